@@ -25,6 +25,9 @@ def mk_cfg(rng, profile):
         "fsync": rng.random() < 0.2,
         "delete_oldest": rng.random() < 0.5,
     }
+    if cfg["dedup"]:
+        # the time-to-live of remembered ids: a duration, or none (ids are remembered until the capacity is reached)
+        cfg["dedup_expiry"] = rng.choice(["1h", "1h", "none", "0", "unlimited"])
     if profile.get("expiry") and rng.random() < 0.85:
         cfg["expiry"] = rng.choice([5_000, 20_000, 100_000, 10_000_000])
     if profile.get("max_size") and rng.random() < 0.85:
